@@ -6,6 +6,10 @@ props = [json.loads(l) for l in open(os.path.join(ROOT, 'properties.jsonl'))]
 
 # id -> (technique, level text, level note, design ref)
 CHECKS = {
+ 'C20': ("Errors.tla WF predicate evaluated by Errors_Trace on every error provoked from every entry point; path codec identity model-checked (Errors_MC) and all its 5461 paths replayed through json.Marshal of an error and ast.Path.UnmarshalJSON under four name alphabets",
+         "4,000 (quick) / 80,000 (thorough) errors from the lexer, both parsers (named sources), limited entry points, LoadSchema over several uniquely named files (after an early load that extends built-ins), Validate under default and random rule subsets, VariableValues with defective values and hostile map keys; coverage counted by distinct message template (about 230 in the quick tier).",
+         "JSON shape is checked on json.Marshal of the *gqlerror.Error; message wording is not compared against an oracle.", "4/C20"),
+
  'C11': ("Shared.tla (read-only operations on one schema; ReadOnly and SameAsAlone invariants over all interleavings of 3 goroutines, faulty writer as non-vacuity witness) + Shared_Trace on real runs: results equal the call run alone on a pristine schema, canonical deep snapshots of the schema graph equal before/after, no race-detector report; forced interleavings through hook H3",
          "Per run: 2/8 schemas x (4/12 single-threaded histories of 30/75 calls with a snapshot around every call; goroutine runs with 2..8 / 2..32 goroutines in a child process built with -race; all 20 / 70 interleavings of two validations at walkSelection granularity). Calls are random mixes of parse+validate (valid, faulty, type-blind), variable coercion, argument resolution and schema formatting.",
          "Data-race freedom is decided by the Go race detector on the schedules that occur; the snapshot is a reflective walk of everything reachable from *ast.Schema (including spare slice capacity).", "4/C11"),
